@@ -105,6 +105,34 @@ func c16d(c *Ctx) {
 			})
 		}
 	}
+	// (1') tokens are copied whole: outside the lexer no single position field of a token is ever
+	// assigned (a text token given its command's line, a per-line copy with LineNumber += i — the
+	// position of a token is where the lexer found it)
+	nPosStore := 0
+	for _, pkg := range []string{"parser", "emitter", "ast", "token", ""} {
+		for _, fn := range c.W.FuncsOf(pkg) {
+			if isTestFunc(c.W, fn) {
+				continue
+			}
+			instrs(fn, func(in ssa.Instruction) {
+				st, ok := in.(*ssa.Store)
+				if !ok {
+					return
+				}
+				_, t, f, ok := fieldAddrOf(st.Addr)
+				if !ok || !typeIs(t, "token", "Token") || !positionFields[f] {
+					return
+				}
+				// a composite literal that copies every field from one token is a whole copy (synthesised tokens: C16.c i)
+				if a, isA := rootValue(st.Addr).(*ssa.Alloc); isA && a.Comment == "complit" {
+					return
+				}
+				nPosStore++
+				c.Bad(fmt.Sprintf("%s/position-assigned[%s]#%d", c.W.FuncKey(fn), f, nPosStore), c.W.Pos(st.Pos()), fn.Name()+" assigns "+f+" of a token ("+pretty(c.term(fn, st.Val))+"): outside the lexer tokens are only copied whole; a changed position makes markers and errors name a line the construct was not written on")
+			})
+		}
+	}
+	c.Check(nPosStore == 0, "positions/never-assigned-outside-the-lexer", "-", "no position field of a token is assigned outside the lexer", "token positions are assigned outside the lexer")
 	// (2) every marker line comes from a LineNumber field
 	if elm != nil {
 		for _, ci := range c.W.callsTo(elm) {
